@@ -363,7 +363,13 @@ ClausesSamples(e) ==
     tables |-> /\ \A s \in sids \cap keys(ss.feasible) \cap keys(ss.feasible_relaxed) :
                      BoolMap(ss.feasible)[s] = want(s).feasible /\ BoolMap(ss.feasible_relaxed)[s] = want(s).relaxed
                /\ ss.objectives # <<>> /\ \A s \in sids \cap DOMAIN SvFun(ss.objectives[1]) : SvFun(ss.objectives[1])[s] = want(s).objective,
-    agrees_with_solo |-> \A i \in DOMAIN e.out.solo : e.out.solo[i].r.tag = "ok" ]
+    agrees_with_solo |-> \A i \in DOMAIN e.out.solo : e.out.solo[i].r.tag = "ok",
+    \* per-constraint metadata the specification does not compute itself (the ids the evaluation says it used): sample i
+    \* extracted from the set reports what evaluating that state alone reports
+    used_as_solo |-> LET usedOf(sol) == { <<sol.evaluated[k].id, SeqToSet(sol.evaluated[k].used)>> : k \in DOMAIN sol.evaluated } IN
+                     \A i \in DOMAIN gets, j \in DOMAIN e.out.solo :
+                        (okget(i) /\ e.out.solo[j].sid = gets[i].sid /\ e.out.solo[j].r.tag = "ok") =>
+                           usedOf(gets[i].r.sol) = usedOf(e.out.solo[j].r.sol) ]
 
 ClausesUsedIds(e) ==
   LET raw == e.in.inst IN
